@@ -502,48 +502,8 @@ def witness(files, fi, line, col, op):
 _REDEF = [("a.lua", "T = {}\nT.k = 1\nfunction T:m()\n  return self.k\nend\nfunction T:m()\n  return self.k\nend\n")]
 # Findings of the relation-only leg on the UNCHANGED code (recorded here, beside their predicates: known_findings/C12.json
 # belongs to the model side of the family; the lead may move them there verbatim - the Runner merges both lists).
-MEMBER_FINDINGS = [
-    {"id": "C12-member_cursor_on_self", "status": "open", "class": "member_cursor_on_self", "leg": MEMBER_LEG,
-     "case": witness([("a.lua", "T = {}\nT.k = 1\nfunction T:m()\n  return self.k\nend\n")], 0, 3, 9, "hover"),
-     "what": "cursor on `self` inside `function T:m()`: definition / references treat it as the table T (consistently), but "
-             "hover shows `T : table = {...}` - it names T, not the identifier under the cursor (clause 4 of C12; by design of "
-             "the self aliasing)"},
-    {"id": "C12-member_self_in_redefined_method", "status": "open", "class": "member_self_in_redefined_method", "leg": MEMBER_LEG,
-     "case": witness(_REDEF, 0, 6, 9, "refs"),
-     "what": "`self` (and members reached through it) in the body of a colon method that the same file defines a second "
-             "time: self is no longer the table but the synthetic parameter, whose Loc is the METHOD NAME of the header; "
-             "definition(self) = the method name's range, definition at that range = the member `m`, and references of "
-             "`self.k` there list only themselves while definition(self.k) is T.k: p is not among references(definition(p)), "
-             "references resolve elsewhere"},
-    {"id": "C12-member_used_in_redefined_method", "status": "open", "class": "member_used_in_redefined_method", "leg": MEMBER_LEG,
-     "case": witness([("b.lua", "T.k = 2\n"), ("c.lua", "T = {}\nfunction T:m()\nend\nfunction T:m()\n  self.k = 3\nend\n")],
-                     0, 0, 2, "refs"),
-     "what": "seen from outside: a member that the body of a RE-DEFINED colon method reaches through `self.` (there a member "
-             "of the synthetic parameter, see member_self_in_redefined_method) is mixed up with the table's member of "
-             "that name by the name-based search: definition(T.k) in another file answers the `self.k` inside the "
-             "re-defined method, references from there list only themselves: a listed reference resolves elsewhere and p "
-             "is not among references(definition(p))"},
-    {"id": "C12-member_undefined", "status": "open", "class": "member_undefined", "leg": MEMBER_LEG,
-     "case": witness([("a.lua", "T = {}\nuse(T.size)\n")], 0, 1, 6, "refs"),
-     "what": "a member that is never assigned (`T.size` read only): definition falls back to the table T, references list "
-             "the reads of `.size`, hover says `any`: p is not among references(definition(p)), hover does not name it"},
-    {"id": "C12-member_defined_through_self_elsewhere", "status": "open", "class": "member_defined_through_self_elsewhere",
-     "leg": MEMBER_LEG,
-     "case": witness([("a.lua", "T = {}\n"), ("b.lua", "function T:m()\n  self.k = 1\nend\nuse(T.k)\n")], 1, 3, 6, "refs"),
-     "what": "a member whose only assignments are `self.k = e` inside colon methods in a file OTHER than the one that assigns "
-             "the table is not recorded as a member for definition / hover (the same text inside the defining file is): "
-             "definition falls back to the table, references still list the occurrences"},
-    {"id": "C12-member_depth2_other_file", "status": "open", "class": "member_depth2_other_file", "leg": MEMBER_LEG,
-     "case": witness([("a.lua", "Mod = {}\nMod.sub = {}\n"), ("b.lua", "Mod.sub.size = 1\nuse(Mod.sub.size)\n")], 1, 0, 8, "refs"),
-     "what": "a member of a member table (`Mod.sub.size = 1`) first assigned in a file other than the one that first assigns "
-             "`Mod.sub` is not found by definition / hover (falls back to `Mod.sub`), while references list its occurrences "
-             "(compare C19 member_depth2)"},
-    {"id": "C12-member_string_key_reference", "status": "open", "class": "member_string_key_reference", "leg": MEMBER_LEG,
-     "case": witness([("a.lua", "T = {}\nT.level = 2\nuse(T[\"level\"])\n")], 0, 1, 2, "refs"),
-     "what": "references of a member list the string key of `T[\"level\"]` with the range of the whole literal INCLUDING the "
-             "quotes; definition at the start of that range (the quote character) answers nothing, so a listed reference "
-             "does not resolve to the declaration (one column further it does; compare the C04 string-key rename class)"},
-]
+# the findings of the relation-only leg (witnesses, replayed on every run) live in known_findings/C12.json like all others
+MEMBER_FINDINGS = []
 
 
 LEGS = [
@@ -566,6 +526,6 @@ def main(tier, seed):
         "returned); implementation column = model column (no model demand), spec column = the answer when the clauses hold.  "
         "Deviations of the unchanged code fall into the MEMBER_CLASSES predicates of checks/c12.py (exact predicates over "
         "the case text and the cursor, each bound to the clauses it explains; a class covers a row only when EVERY failing "
-        "clause is explained); their findings (MEMBER_FINDINGS, with witnesses, replayed on every run) are merged with "
+        "clause is explained); their findings (in known_findings/C12.json, with witnesses, replayed on every run) stand beside "
         "known_findings/C12.json.  `local` in clause 4 is decided on the text (one statement per line).  Workspaces: every "
         "global table is assigned at top level in exactly one file"])
